@@ -116,11 +116,11 @@ Definition c20_store : store := mkStore [] [c20_session] [c20_grant].
 Definition no_jwks_uri : id -> bool := fun _ => false.
 
 (* request 1: a refresh of the grant's token; request 2: an introspection of any token *)
-Definition c20_refresh := refresh_grant c20_world 5 0%Z (mkTReq (mkCred 1 true) no_bind "" 0 "" 35 PkEmpty 0 HgOk BaApprove []).
+Definition c20_refresh := refresh_grant c20_world 5 0%Z (mkTReq (mkCred 1 true) no_bind "" 0 "" 35 PkEmpty 0 HgOk BaApprove [] AsNone).
 Definition c20_introspect := introspect c20_world 0%Z (mkQReq (mkCred 1 true) (PExact 999) true).
 (* request 3: the callback that finishes the session; request 4: any lookup by code *)
 Definition c20_callback := continue_auth c20_world 6 0%Z (mkCbReq 37 (PolSuccess "user" "openid" [])).
-Definition c20_code := code_grant c20_world 7 0%Z (mkTReq (mkCred 1 true) no_bind "" 888 "" 0 PkEmpty 0 HgOk BaApprove []).
+Definition c20_code := code_grant c20_world 7 0%Z (mkTReq (mkCred 1 true) no_bind "" 888 "" 0 PkEmpty 0 HgOk BaApprove [] AsNone).
 
 Definition some_race (l1 l2 : list access) : bool := existsb (fun a => existsb (races a) l2) l1.
 Definition race_pairs (l1 l2 : list access) : list (string * string) :=
